@@ -536,7 +536,7 @@ func run(out, tier string, seed int64) {
 	rng := rand.New(rand.NewSource(seed))
 	nRandom, nWitness, nDedup, maxPerm, nBlocks, blockSize := 150, 7, 400, 4, 0, 0
 	if tier == "thorough" {
-		nRandom, nWitness, nDedup, maxPerm, nBlocks, blockSize = 500, 21, 1500, 5, 12, 250
+		nRandom, nWitness, nDedup, maxPerm, nBlocks, blockSize = 800, 21, 4000, 5, 40, 500
 	}
 	m := NewMeta("C08", tier, seed)
 	m.Rule = "universe = the C07 universe (all nine kinds, width<=2 depth<=2 containers, seeded random values) + objects with delimiter keys + same objects in other insertion orders + delimiter-collision witnesses derived from the implementation's own hash; one evaluation = one unordered pair (hash-equal? vs structurally identical?, for Value.Hash and for MapHash), one insertion permutation, one Copy/Clone, or one de-duplicating construct on one array; non-trivial = the pair's two renderings differ / the array has at least one planted duplicate; distinct = distinct rendered pairs + distinct (construct, input) texts"
